@@ -242,10 +242,15 @@ def r5(ctx):
               got=render(v.return_term()), key="formula")
     s = ctx.fibody(name="snapshot", self_adt=OB, trait="")
     rt = s.return_term()
+    if rt[0] == "call" and mir.short(rt[1]) == "OrderBook::new":
+        # built through the book's own constructor instead of a struct literal: read the constructor at this call site
+        cs = common.at_call(ctx, rt) or []
+        if len(cs) == 1:
+            rt = cs[0][1]
     f = {k: render(x) for k, x in zip(rt[2], rt[3])} if rt[0] == "agg" else {}
     want = {"sequence": "self.sequence", "time_engine": "self.time_engine",
-            "bids": "OrderBookSide::bids(Iterator::copied(Iterator::take(slice::iter(self.bids.levels), depth)))",
-            "asks": "OrderBookSide::asks(Iterator::copied(Iterator::take(slice::iter(self.asks.levels), depth)))"}
+            "bids": "OrderBookSide::bids(Iterator::copied(Iterator::take(self.bids.levels, depth)))",
+            "asks": "OrderBookSide::asks(Iterator::copied(Iterator::take(self.asks.levels, depth)))"}
     ctx.check("OrderBook::snapshot", f == want, "depth-limited snapshot = the first `depth` levels of each side with the book's sequence",
               got=f, want=want, key="fields")
 
